@@ -3003,7 +3003,10 @@ def transform_pseudo_instructions(items, constants, labels):
             inst = ITypeInstruction(item.line, 'addi', rd='x0', rs1='x0', imm=Arithmetic('0'))
         elif item.name == 'li':
             rd, *imm = item.args
-            imm = parse_immediate(imm, item.line)
+            try:
+                imm = parse_immediate(imm, item.line)
+            except (ValueError, IndexError):
+                raise AssemblerError('invalid syntax (malformed expression)', item.line)
             # check if eligible for single inst expansion
             env = ChainMap(constants, labels)
             value = imm.eval(position, env, item.line)
@@ -3407,7 +3410,13 @@ def assemble(path_or_source, *, constants=None, labels=None, compress=False, inc
     lines = [l for l in lines if len(l) > 0]
     tokens = [lex_tokens(l) for l in lines]
     tokens = [t for t in tokens if len(t) > 0]
-    items = [parse_item(t) for t in tokens]
+    items = []
+    for t in tokens:
+        try:
+            items.append(parse_item(t))
+        except (ValueError, IndexError):
+            # wrong number of operands or unbalanced parens trip the tuple unpacking in parse_item / parse_immediate
+            raise AssemblerError('invalid syntax (wrong number of operands or malformed expression)', t.line)
     items = [i for i in items if i is not None]
     for item in items:
         log.info('parsed file {}, line {}: "{}"'.format(os.path.basename(item.line.file), item.line.number, item))
